@@ -1648,7 +1648,7 @@ Section Helpers.
             apply sep_write; auto. simpl. now apply Forall_remove_at.
         - sbind; [eapply map_extractor_sep; eauto|]. intros ex _.
           sbi p Hp. destruct Hp as [-> Hp]. simpl in Hc. specialize (Hp Hoc). sbi h' Hh.
-          apply sep_write; auto. simpl. now apply Forall_filter.
+          apply sep_write; auto. unfold obj_ok. apply Forall_filter. exact Hp.
         - sbind; [eapply set_extractor_sep; eauto|]. intros ex _.
           sbi p Hp. destruct Hp as [-> Hp]. simpl in Hc. specialize (Hp Hoc).
           sbind; [eapply set_discard_sep; eauto|]. intros xs Hxs.
@@ -1689,6 +1689,7 @@ Section Step.
   Local Notation okV := (okv b A).
   Local Notation SEP := (sep b A h0).
   Let Hrec := proj1 (exec_sep ct no_dnc wf_owner b A h0 AC ct_ok A_dnc XFUEL).
+  Local Opaque exec XFUEL.
 
   Definition op_ok (roots : list val) (o : op) : Prop :=
     match o with
@@ -1715,7 +1716,8 @@ Section Step.
     - sbind; [apply loc_of_sep|]. intros l Hl. rewrite Hl in H.
       sbindT; [eapply sep_weaken; [apply Hrec; simpl; auto|auto]|]. intros; now sret.
     - destruct H as [H1 H2]. sbind; [apply loc_of_sep|]. intros l Hl.
-      eapply sep_weaken; [eapply run_helper_sep; eauto|]. intros r Hr. rewrite Hl. exact Hr.
+      cbv beta in Hl.
+      eapply sep_weaken; [eapply run_helper_sep; eauto|]. intros r Hr. simpl. rewrite Hl. exact Hr.
     - eapply sep_weaken; [eapply deepcopy_sep; eauto|].
       intros r Hr. destruct (nth x roots VNone); try (rewrite Hr; exact I).
       destruct Hr as [l' [-> Hl']]. simpl. auto.
@@ -1750,7 +1752,7 @@ Proof.
     apply H. apply in_vrefs. rewrite <- E. now apply in_map.
 Qed.
 
-Lemma reach_from_closed b h0 R : A_closed b (reach_from h0 R) h0.
+Lemma reach_from_closed b h0 (R : loc -> Prop) : A_closed b (reach_from h0 R) h0.
 Proof.
   intros l o [l0 [H0 Hr]] Hl Hn. apply obj_ok_of_refs. intros l' Hin. right.
   exists l0. split; auto. eapply reach_step; eauto.
@@ -1761,7 +1763,7 @@ Definition dnc_value (ct : ctable) (h0 : list obj) (l : loc) : Prop :=
   exists li c d k a sp, nth_error h0 li = Some (OInst c d) /\ lookup_cls ct c = Some k /\
                         In (a, VRef l) d /\ lookup_attr k a = Some sp /\ a_dnc sp = true.
 
-Lemma reach_from_dnc ct b h0 R :
+Lemma reach_from_dnc ct b h0 (R : loc -> Prop) :
   (forall l, dnc_value ct h0 l -> R l) -> dnc_allowed ct b (reach_from h0 R) h0.
 Proof.
   intros H l c d k a sp x Hl Hn Hk Hin Ha Hd. destruct x; simpl; auto. right.
@@ -1864,7 +1866,7 @@ Section Theorems.
     assert (Hargs : hargs_ok ct b A h).
     { split; [|split; [|split; [|split]]].
       - rewrite Forall_forall. intros v Hv. destruct v; simpl; auto. apply okv_root. left. left. exact Hv.
-      - destruct (h_index h) eqn:E; simpl; auto. apply okv_root. left. right. left. reflexivity.
+      - destruct (h_index h) eqn:E; simpl; auto. apply okv_root. left. right. left. exact E.
       - destruct (h_kw h) as [kw|] eqn:E; simpl; auto. unfold kw_okv. rewrite Forall_forall.
         intros [a v] Hp. unfold fok. simpl. destruct v; simpl; auto. apply okv_root. left. right. right.
         exists kw, a. auto.
@@ -2128,7 +2130,7 @@ Section DncIdentity.
     induction d as [|[a x] d IH]; intros done memo s memo' s' Hn Hrun; simpl in Hrun.
     - inversion Hrun; subst. exists []. rewrite app_nil_r. split; auto.
     - apply bind_inv in Hrun. destruct Hrun as (m1 & s1 & H1 & H2).
-      unfold F in H1 at 1. apply bind_inv in H1. destruct H1 as (r & s0 & Hr & H1).
+      apply bind_inv in H1. destruct H1 as (r & s0 & Hr & H1).
       assert (Hn0 : nth_error (heap s0) new = Some (OInst c done) /\
                     (forall sp, lookup_attr k a = Some sp -> a_dnc sp = true -> fst r = x)).
       { assert (Hlt : new < length (heap s)) by (apply nth_error_Some; congruence).
@@ -2152,10 +2154,10 @@ Section DncIdentity.
                     = Some (OInst c (done ++ [(a, fst r)]))).
       { apply Nat.ltb_lt in Elt. clear -Elt. revert new Elt.
         induction (heap s0); intros [|n] E; simpl in *; try lia; auto. apply IHl. lia. }
-      destruct (IH (done ++ [(a, fst r)]) (snd r) _ memo' s' Hn1 H2) as (d' & Hd' & Hc).
+      destruct (IH (done ++ [(a, fst r)]) (snd r) (mkst (set_nth new (OInst c (done ++ [(a, fst r)])) (heap s0)) (ncalls s0) (fail_at s0)) memo' s' Hn1 H2) as (d' & Hd' & Hc).
       exists ((a, fst r) :: d'). split.
       + rewrite <- app_assoc in Hd'. exact Hd'.
-      + constructor; auto. split; simpl; auto. intros sp Hsp Hd. symmetry. eapply Hdnc; eauto.
+      + constructor; auto. split; simpl; auto.
   Qed.
 End DncIdentity.
 
